@@ -27,7 +27,7 @@ ASSUMPTIONS = [
     "a Nack in reply to a StopSubscribe that matches nothing is accepted but not required (the statement is silent)",
     "all messages arrive within one second and TTLs are >= 1 s, so no subscription expires inside a case",
 ]
-BUDGET = {"quick": {"examples": 8000, "shrink": 300}, "thorough": {"examples": 480000, "shrink": 2000}}
+BUDGET = {"quick": {"examples": 8000, "shrink": 300}, "thorough": {"examples": 240000, "shrink": 2000}}
 INF = 0xFFFFFF
 EPSETS = [[["10.0.0.2", 4000, 17]], [], [["2001:db8::3", 4001, 6]], [["10.0.0.2", 4000, 17], ["10.0.0.2", 4002, 17]]]
 
@@ -109,7 +109,7 @@ def run_case(case):
         stored = set()   # (subscriber, instance index, identity)
         sessions = {}
         seen_sessions = {}
-        carry_exp, carry_opt, carry_t = collections.Counter(), collections.Counter(), []
+        carry_exp, carry_opt, carry_t, carry_src = collections.Counter(), collections.Counter(), [], []
         msgs_ = case["msgs"]
         for mi, m in enumerate(msgs_):
             src = ADDRS[m["src"] % 2]
@@ -122,7 +122,7 @@ def run_case(case):
                     stored.discard(k_)
                 feats["reboot"] += 1
             entries = [e for e in m["entries"] if sum(1 for i in insts if _matches(i, e)) <= 1][:6]
-            if not entries:
+            if not entries and not carry_t:
                 continue
             wire_entries = []
             expected = collections.Counter()
@@ -176,14 +176,22 @@ def run_case(case):
                 feats["mixed-outcomes"] += 1
             store_before = [sorted(repr(k) for k in o.subscriptions.entries()) for o in objs]
             t_arr = sim.now + m["dt"]
-            sim.do_at(t_arr, prot.datagram_received, sd_bytes(wire_entries, sid, reboot=True), src, mc)
+            if wire_entries:
+                sim.do_at(t_arr, prot.datagram_received, sd_bytes(wire_entries, sid, reboot=True), src, mc)
+            else:
+                sim.run_until(t_arr)   # every entry of this message was excluded (matched by two instances): nothing is sent
+            if carry_src and carry_src[0] != src:
+                src_for_acks = carry_src[0]
+            else:
+                src_for_acks = src
             nxt = msgs_[mi + 1] if mi + 1 < len(msgs_) else None
-            if coll and nxt is not None and nxt["dt"] < coll and not mc and not nxt["mc"] and ADDRS[nxt["src"] % 2] == src:
+            if wire_entries and coll and nxt is not None and nxt["dt"] < coll and not mc and not nxt["mc"] and ADDRS[nxt["src"] % 2] == src:
                 # the next message of this subscriber arrives while the answers to this one still wait in the send
                 # collector: both messages are judged together
                 carry_exp.update(expected)
                 carry_opt.update(optional)
                 carry_t.append(t_arr)
+                carry_src[:] = [src]
                 feats["within-collection-window"] += 1
                 continue
             expected.update(carry_exp)
@@ -192,6 +200,7 @@ def run_case(case):
             carry_exp.clear()
             carry_opt.clear()
             del carry_t[:]
+            del carry_src[:]
             sim.advance(coll + 0.0005 if coll else 0.0)
             got = [e for e in sent_entries(prot.transport, n0) if e["type"] == wire.SUBSCRIBE_ACK]
             others = [e for e in sent_entries(prot.transport, n0) if e["type"] not in (wire.SUBSCRIBE_ACK, wire.OFFER)]
@@ -208,7 +217,7 @@ def run_case(case):
                     require(store_before == [sorted(repr(k) for k in o.subscriptions.entries()) for o in objs], "C11.multicast-state", "subscriptions changed by a multicast Subscribe")
                 continue
             for a in got:
-                require(a["dest"] == src, "C11.ack-destination", lambda: f"SubscribeAck {a} sent to {a['dest']}, the Subscribe came from {src}")
+                require(a["dest"] == src_for_acks, "C11.ack-destination", lambda: f"SubscribeAck {a} sent to {a['dest']}, the Subscribe came from {src_for_acks}")
                 require(t_first - RES <= a["t"] <= t_arr + coll + RES, "C11.ack-time", lambda: f"ack at {a['t']:.6f} for a message at {t_arr:.6f}")
             gotc = collections.Counter((a["service"], a["instance"], a["major"], a["eventgroup"], a["counter"], a["ttl"]) for a in got)
             extra = gotc - expected
